@@ -51,6 +51,72 @@ def clause_a(facts, rep):
                     rep.check('isConst' in st and 'noCopyReq' in st, 'E8.deep-copy', f.qn, show(e)[:70], locline(e['loc']),
                               'the copy may share the character data only for a constant string and when copying was not requested', facts.config)
             rep.check('StringCopy' in calls, 'E8.deep-copy', f.qn, 'owned strings are copied with StringCopy', f.loc, '', facts.config)
+            # container arms: whatever was copied from the source header, the children pointer of the copy is set
+            # explicitly - to a block obtained from the copy's own allocator or to null - before the arm is left
+            # (an empty container may still own a children block: inheriting the source's pointer shares it)
+            en = f.facts.enum_values()
+            arms = {en.get('kObject'): 'object', en.get('kArray'): 'array'}
+            fresh = set()
+            for bid, i, st_ in f.stmts():
+                s_ = strip(st_)
+                if s_ is not None and s_.get('k') == 'decl':
+                    for vd in s_['vars']:
+                        if vd.get('init') is not None and any(x.get('k') == 'call' and x.get('cname') == 'containerMalloc' for x in walk(vd['init'])):
+                            fresh.add(vd['id'])
+
+            def own_children(e):
+                if e.get('k') != 'call' or e.get('cname') != 'setChildren' or not e.get('args'):
+                    return False
+                o = strip(e.get('obj')) if e.get('obj') is not None else None
+                if o is not None and o.get('k') != 'this':
+                    return False
+                a = e['args'][0]
+                if cval(a) == 0:
+                    return True
+                a_ = strip(a)
+                if a_ is not None and a_.get('k') == 'ref' and a_.get('id') in fresh:
+                    return True
+                return any(x.get('k') == 'call' and x.get('cname') == 'containerMalloc' for x in walk(a))
+
+            def gen_stmt2(st_):
+                return ['children-set'] if any(own_children(e) for e in walk(st_)) else []
+
+            def kill_stmt2(st_):
+                # a raw copy of the source header over this node overwrites the pointer again
+                for e in walk(st_):
+                    if e.get('k') == 'call' and e.get('cname') in ('memcpy', '__builtin_memcpy') and e.get('args') and any(x.get('k') == 'this' for x in walk(e['args'][0])):
+                        return ['children-set']
+                return []
+
+            def gen_edge2(b, cond, sense):
+                if isinstance(sense, tuple) and sense[0] == 'case':
+                    try:
+                        v = int(sense[1]) if sense[1] is not None else None
+                    except (TypeError, ValueError):
+                        v = None
+                    if v in arms:
+                        return ['arm:' + arms[v]]
+                return []
+            M2 = Must(f, gen_stmt=gen_stmt2, kill_stmt=kill_stmt2, gen_edge=gen_edge2)
+            na = 0
+            for bid, B in f.blocks.items():
+                t = B.get('term')
+                if not (t and t.get('cls') == 'BreakStmt'):
+                    continue
+                st2 = M2.IN.get(bid)
+                if st2 is None:
+                    continue
+                st2 = set(st2)
+                for st_ in B['stmts']:
+                    st2 -= set(kill_stmt2(st_))
+                    st2 |= set(gen_stmt2(st_))
+                arm = [x for x in st2 if x.startswith('arm:')]
+                if not arm:
+                    continue
+                na += 1
+                rep.check('children-set' in st2, 'E8.deep-copy', f.qn, 'the %s arm sets the copy\'s own children pointer on every path' % arm[0][4:], locline(t['loc']),
+                          'a deep copy must not inherit the children pointer of its source (an emptied container can still own a block): setChildren(fresh block | nullptr) before leaving the arm', facts.config)
+            rep.require(na >= 2, 'C13.a: container arms of the deep-copy constructor found: %d' % na)
     rep.require(n >= 1, 'C13.a: deep-copy constructor not found')
 
 
